@@ -309,22 +309,23 @@ class Rig:
                 rec['framing'] = type(e).__name__
                 raise
 
-        class J:
-            @staticmethod
-            def loads(b, *a, **kw):
-                try:
-                    v = _json.loads(b, *a, **kw)
-                    rec['json'] = 'N' if v is None else 'D' if isinstance(v, dict) else 'O'
-                    return v
-                except ValueError:
-                    rec['json'] = 'V'
-                    raise
-                except RecursionError:
-                    rec['json'] = 'R'
-                    raise
-                except TypeError:
-                    rec['json'] = 'T'
-                    raise
+        def loads(b, *a, **kw):
+            try:
+                v = _json.loads(b, *a, **kw)
+                rec['json'] = 'N' if v is None else 'D' if isinstance(v, dict) else 'O'
+                return v
+            except ValueError:
+                rec['json'] = 'V'
+                raise
+            except RecursionError:
+                rec['json'] = 'R'
+                raise
+            except TypeError:
+                rec['json'] = 'T'
+                raise
+        import types
+        J = types.SimpleNamespace(**{k: v for k, v in vars(_json).items() if not k.startswith('__')})
+        J.loads = loads
         bm._iter_body, bm._iter_chunked, bm._body_read, bm.json_mod = wrap_iter(orig['ib']), wrap_iter(orig['ic']), body_read, J
         return orig
 
